@@ -957,6 +957,24 @@ def _sd2(E, v):
     return E.spec_extra["sdepth2"].f if called else E.spec_extra["depth"].f
 
 
+def _seq(L):
+    """(z3 array term, z3 length) of a sequence of integers whatever the carrier keeps it in: a list (concrete or symbolic) or a 1-D integer array"""
+    if isinstance(L, SArr):
+        return (L.arr, L.nz()) if L.kind == "int" else (None, None)
+    if isinstance(L, NArr):
+        return (ZA(L), z3.IntVal(L.shape[0])) if L.kind == "int" and L.ndim == 1 and L.items else ((z3.K(I, z3.IntVal(0)), z3.IntVal(0)) if L.ndim == 1 and not L.items else (None, None))
+    if isinstance(L, PList):
+        if L.items is None:
+            return L.cols[0], zint(L.n)
+        A = z3.K(I, z3.IntVal(0))
+        for j, x in enumerate(L.items):
+            if kind_of(x) != "int":
+                return None, None
+            A = z3.Store(A, j, to_z3(x, "int"))
+        return A, z3.IntVal(len(L.items))
+    return None, None
+
+
 def cts_link_inv(which):
     """loop 1 (`for n in link_to_root: tree.node(n).pid = node1`), k iterations done: only the parent column changes, and exactly the
     rows listed so far point to node1"""
@@ -987,7 +1005,10 @@ def cts_link_inv(which):
             mm = z3.Int(fresh_name("m"))
             if v["remove"] is None:
                 return True
-            return z3.And(zint(L.n) == flt.nz(), z3.ForAll([mm], z3.Implies(z3.And(mm >= 0, mm < flt.nz()), z3.Select(L.cols[0], mm) == flt.kappa(mm) + ns)))
+            LA, Ln = _seq(L)  # the carrier may hold the rows in a list or in an integer array
+            if LA is None:
+                return False
+            return z3.And(Ln == flt.nz(), z3.ForAll([mm], z3.Implies(z3.And(mm >= 0, mm < flt.nz()), z3.Select(LA, mm) == flt.kappa(mm) + ns)))
         raise KeyError(which)
 
     return (which, f)
